@@ -31,7 +31,7 @@ func alpha(r *runner.Run) qcheck.Alpha {
 
 func TestCheck(t *testing.T) {
 	r := runner.Start("C13", "model_checking")
-	if qcheck.HandleReplay(r, nil, []qcheck.LockSpec{{Name: "c13", ScaleCompaction: true}}) {
+	if qcheck.HandleReplay(r, nil, []qcheck.LockSpec{{Name: "c13", ScaleCompaction: true}, {Name: "c13-full-reject-retention", ScaleCompaction: true}, {Name: "c13-full-drop-retention", ScaleCompaction: true}, {Name: "c13-churn"}}) {
 		r.Finish()
 	}
 	deadline := r.Deadline(80*time.Second, 14*time.Minute)
@@ -50,14 +50,54 @@ func TestCheck(t *testing.T) {
 	}
 	_ = deadline
 	shards := runner.Pick(r, 5, 4)
-	njobs := len(cfgs) * shards
-	par := 15
+	// focus jobs (small alphabets, one process each): a bounded queue that refuses, with queue retention (admission
+	// hints against pruning), and traffic bursts on another route past the memory store's size thresholds (real
+	// thresholds) from the rich start states
+	type focus struct {
+		name   string
+		cfg    qmodel.Config
+		alpha  qcheck.Alpha
+		depth  int
+		prefix int
+		scaled bool
+	}
+	full := qcheck.Alpha{
+		IDs: []string{"a", "b", "c"}, Routes: []string{"/r1"}, Targets: []string{"t1"}, EnqBatch: true,
+		Deq: []qcheck.DeqSpec{{Batch: 2, TTL: 2 * sec}}, LeaseOps: []string{"ack", "dead"}, MaxHandles: 2,
+		Operator: []string{"cancel", "requeue"}, Reads: []string{"list", "stats"}, Ticks: []time.Duration{sec, 10 * sec},
+	}
+	churn := qcheck.Alpha{
+		IDs: []string{"a", "b", "c"}, Routes: []string{"/r1", "/r1", "/r2"}, Targets: []string{"t1", "t2", "t1"},
+		Deq: []qcheck.DeqSpec{{Batch: 100, TTL: 2 * sec}}, LeaseOps: []string{"ack", "dead"}, MaxHandles: 2,
+		Operator: []string{"cancel", "requeue", "resume", "rqdead"}, Reads: []string{"list", "stats"}, Ticks: []time.Duration{2 * sec}, Churn: 1500,
+	}
+	focuses := []focus{
+		{name: "full-reject-retention", cfg: qmodel.Config{MaxDepth: 2, RetentionMaxAge: 10 * sec, PruneInterval: sec}, alpha: full, depth: runner.Pick(r, 5, 6), scaled: true},
+		{name: "full-drop-retention", cfg: qmodel.Config{MaxDepth: 2, DropOldest: true, RetentionMaxAge: 10 * sec, PruneInterval: sec}, alpha: full, depth: runner.Pick(r, 5, 6), scaled: true},
+	}
+	for pi := range qcheck.RichPrefixes(churn) {
+		focuses = append(focuses, focus{name: "churn", alpha: churn, depth: runner.Pick(r, 3, 4), prefix: pi + 1})
+	}
+	base := len(cfgs) * shards
+	njobs := base + len(focuses)
+	par := 16
 	waves := (njobs + par - 1) / par
-	budget := runner.Pick(r, 70*time.Second, 13*time.Minute) / time.Duration(waves)
+	budget := runner.Pick(r, 90*time.Second, 13*time.Minute) / time.Duration(waves)
 	if ji, ok := runner.Job(); ok {
-		spec := qcheck.LockSpec{Name: "c13", Cfg: cfgs[ji/shards], Alpha: alpha(r), Depth: runner.Pick(r, 4, 5), Workers: 3,
-			RootShard: ji % shards, RootShards: shards, ScaleCompaction: true,
-			MaxTrans: runner.Pick(r, int64(2_000_000), int64(30_000_000)), Deadline: time.Now().Add(budget)}
+		var spec qcheck.LockSpec
+		if ji < base {
+			spec = qcheck.LockSpec{Name: "c13", Cfg: cfgs[ji/shards], Alpha: alpha(r), Depth: runner.Pick(r, 4, 5), Workers: 3,
+				RootShard: ji % shards, RootShards: shards, ScaleCompaction: true,
+				MaxTrans: runner.Pick(r, int64(2_000_000), int64(30_000_000)), Deadline: time.Now().Add(budget)}
+		} else {
+			f := focuses[ji-base]
+			spec = qcheck.LockSpec{Name: "c13-" + f.name, Cfg: f.cfg, Alpha: f.alpha, Depth: f.depth, Workers: 3, ScaleCompaction: f.scaled,
+				MaxTrans: runner.Pick(r, int64(2_000_000), int64(30_000_000)), Deadline: time.Now().Add(budget)}
+			if f.prefix > 0 {
+				pre := qcheck.RichPrefixes(f.alpha)[f.prefix-1]
+				spec.Prefix, spec.PrefixName = pre.Ops, pre.Name
+			}
+		}
 		res := qcheck.RunLockstep(spec)
 		qcheck.ReportLockstep(r, spec, res)
 		r.Finish()
